@@ -520,6 +520,12 @@ fn typing_rejects() -> serde_json::Value {
         ("Stack([i32[2]], [2]): wrong number of operands", Box::new(move |g| g.stack(vec![a(g, vec![2])?], vec![2]))),
         ("Get(i32[2,3], [2]): index out of range", Box::new(move |g| a(g, vec![2, 3])?.get(vec![2]))),
         ("Get(i32[2,3], [0,0,0]): too many indices", Box::new(move |g| a(g, vec![2, 3])?.get(vec![0, 0, 0]))),
+        ("SegmentCumSum(i32[3,2], bit[3], first row i32 scalar): the first row must have the row shape [2]", Box::new(move |g| a(g, vec![3, 2])?.segment_cumsum(g.input(array_type(vec![3], BIT))?, g.input(scalar_type(INT32))?))),
+        ("SegmentCumSum(i32[3,2], bit[3], first row i32[3]): wrong row shape", Box::new(move |g| a(g, vec![3, 2])?.segment_cumsum(g.input(array_type(vec![3], BIT))?, a(g, vec![3])?))),
+        ("SegmentCumSum(i32[3], bit[2], first row i32): binary array of the wrong length", Box::new(move |g| a(g, vec![3])?.segment_cumsum(g.input(array_type(vec![2], BIT))?, g.input(scalar_type(INT32))?))),
+        ("SegmentCumSum(i32[3], bit[3], first row i64): scalar types differ", Box::new(move |g| a(g, vec![3])?.segment_cumsum(g.input(array_type(vec![3], BIT))?, g.input(scalar_type(INT64))?))),
+        ("Add(i32[2,3], i32[2]): not broadcastable", Box::new(move |g| a(g, vec![2, 3])?.add(a(g, vec![2])?))),
+        ("Multiply(i32[4,1,3], i32[2,2]): not broadcastable", Box::new(move |g| a(g, vec![4, 1, 3])?.multiply(a(g, vec![2, 2])?))),
     ];
     let mut tried = 0;
     for (name, build) in cases {
